@@ -137,7 +137,7 @@ func logSigned(l *logSpec, h *sth) error {
 	if len(h.Root) != 32 {
 		return fmt.Errorf("root hash of %d bytes", len(h.Root))
 	}
-	if len(h.LogID) != 0 && !bytes.Equal(h.LogID, l.id[:]) {
+	if !idAbsent(h.LogID) && !bytes.Equal(h.LogID, l.id[:]) {
 		return fmt.Errorf("names another log")
 	}
 	ds, err := oracle.ParseDigitallySigned(h.Sig)
@@ -145,6 +145,18 @@ func logSigned(l *logSpec, h *sth) error {
 		return err
 	}
 	return oracle.VerifyDS(l.pub, oracle.STHSignatureInput(h.TS, h.Size, h.Root), ds)
+}
+
+// idAbsent: no embedded log id. ct.SignedTreeHead.LogID is a fixed array, so an
+// omitted field and 32 zero bytes are the same value to the witness (it fills
+// in the id of the log addressed); the oracle reads them the same way.
+func idAbsent(id []byte) bool {
+	for _, b := range id {
+		if b != 0 {
+			return false
+		}
+	}
+	return true
 }
 
 // onTree reports whether (size, root) is a head of t.
@@ -155,9 +167,20 @@ func onTree(t *tree, size uint64, root []byte) bool {
 // extends reports whether next is a genuine extension of prev within log l:
 // both are heads of one of the log's trees and prev is not larger. (Equal size
 // on one tree implies equal root.)
+//
+// Two cases outside the trees the oracle generated (a log may sign anything):
+// a head of size 0 is the empty prefix of every tree, so any larger head
+// extends it whatever root the size-0 head claimed; and a head that lies on no
+// known tree is extended only by a head with the same size and root.
 func extends(l *logSpec, prev, next *sth) bool {
 	if prev.Size > next.Size {
 		return false
+	}
+	if prev.Size == next.Size {
+		return bytes.Equal(prev.Root, next.Root)
+	}
+	if prev.Size == 0 {
+		return true
 	}
 	for _, t := range l.trees {
 		if onTree(t, prev.Size, prev.Root) && onTree(t, next.Size, next.Root) {
@@ -242,7 +265,17 @@ func (w *World) signIssue(k *oracle.Key, ts, size uint64, root []byte, issue int
 
 const tsBase = 1600000000000
 
-func headTS(size int, variant int) uint64 { return uint64(tsBase + size*1000 + variant) }
+// headTS: variants 0..97 shift the timestamp by that many ms; 98 and 99 are the
+// extremes of the field (0 and 2^64-1).
+func headTS(size int, variant int) uint64 {
+	switch variant {
+	case 98:
+		return 0
+	case 99:
+		return ^uint64(0)
+	}
+	return uint64(tsBase + size*1000 + variant)
+}
 
 func (sh *signedHead) json(version uint64, embedID []byte) []byte {
 	b, err := json.Marshal(sthJSON{Version: version, TreeSize: sh.size, Timestamp: sh.ts, Root: sh.root, Sig: sh.sig, LogID: embedID})
@@ -264,18 +297,60 @@ func (w *World) mkCand(desc string, raw []byte, l *logSpec, t *tree, size int) *
 // honestHead is a correctly signed head of tree t at size n, with log id embedded or not.
 // variant%100 shifts the timestamp; variant/100 > 0 is a re-issued signature
 // over the very same (size, timestamp, root).
-func (w *World) honestHead(l *logSpec, t *tree, n int, variant int, embed bool) *cand {
+func (w *World) honestHead(l *logSpec, t *tree, n int, variant int, embed int) *cand {
 	sh := w.signIssue(l.key, headTS(n, variant%100), uint64(n), t.roots[n], variant/100)
 	var id []byte
 	e := ""
 	if variant >= 100 {
 		e = fmt.Sprintf("(re-issued %d)", variant/100)
 	}
-	if embed {
-		id = l.id[:]
+	id = embedID(l, embed)
+	switch embed {
+	case embedOwn:
 		e += "+id"
+	case embedZero:
+		e += "+zero-id"
+	}
+	switch variant % 100 {
+	case 98:
+		e += "(ts=0)"
+	case 99:
+		e += "(ts=max)"
 	}
 	return w.mkCand(fmt.Sprintf("%s/%s@%d%s", l.name, t.name, n, e), sh.json(0, id), l, t, n)
+}
+
+// embedded log id classes: the optional field absent, set to the log's id, or present and all zero.
+const (
+	embedAbsent = 0
+	embedOwn    = 1
+	embedZero   = 2
+)
+
+func embedID(l *logSpec, embed int) []byte {
+	switch embed {
+	case embedOwn:
+		return l.id[:]
+	case embedZero:
+		return make([]byte, 32)
+	}
+	return nil
+}
+
+// splice inserts extra members (`,"k":v`) before the closing brace of a JSON object.
+func splice(raw []byte, members string) []byte {
+	out := append([]byte(nil), raw[:len(raw)-1]...)
+	out = append(out, members...)
+	return append(out, '}')
+}
+
+// clampSize turns a tree size from the wire into an int for the generator's
+// arithmetic (heads signed by a log may claim any uint64).
+func clampSize(u uint64) int {
+	if u > 1<<30 {
+		return 1 << 30
+	}
+	return int(u)
 }
 
 // treeOf returns the first tree of l that has (size, root) as a head (honest first), or nil.
